@@ -103,6 +103,9 @@ class Ratio:
         pos = z3.Or(n == 0, (n > 0) == (d > 0))
         return z3.If(pos, floordiv(n, d), -floordiv(-n, d))
 
+    def truthy(self):
+        return zint(self.num) != 0          # a quotient is zero exactly when its numerator is (the denominator is never 0)
+
     def __repr__(self):
         return f'Ratio({self.num}, {self.den})'
 
